@@ -12,12 +12,16 @@
     from the reference census: a holder exists => the cell is in the table, not freed, MinRc count >= 1; a freed cell
     keeps count 0) and no "impossible" code ([C16_flags_no_leak_part]); hence C16_flags_ok holds as soon as the trace
     reports no leak ([C16_flags_of_no_leak]).
-    Not yet proved: at-most-once for tokens, Fwd objects and orphaned value tokens (not in the census of Lin.v), and
-    the leak conjunct of the flag check (nothing leaks outside the classes of F4/F5/F7 and the documented 'defer after
-    the Stakker is dropped' case). *)
+    Proved for every program (layerRproofs2, R/LinOnce*.v, LinTok*.v): at-most-once / not-before-creation for the
+    remaining kinds -- tokens (token census), Fwd closures, orphaned value tokens ([C16_released_once_rest]).
+    Hence [C16_of_no_leak]: for every program, deferrer kind and fuel, C16_ok t = true as soon as the trace reports no
+    leak (decidable on the trace); the hypothesis is necessary ([C16_leak_refuted]: F5).
+    Not yet proved: the leak conjunct itself (nothing leaks outside the classes of F4/F5/F7, the self-referencing
+    actor and the documented 'defer after the Stakker is dropped' case): it needs the final-configuration argument
+    (after the flush rounds of the epilogue everything counted by the censuses has been dropped). *)
 From Coq Require Import ZArith NArith List Bool.
 Import ListNotations.
-From Stk Require Import Lib.U Gen.SrcCount R.Syntax R.Rt R.Mon R.Count R.OneStep R.C16Proofs R.LinUafInv R.LinFlags.
+From Stk Require Import Lib.U Gen.SrcCount R.Syntax R.Rt R.Mon R.Count R.OneStep R.C16Proofs R.LinUafInv R.LinFlags R.LinOnce3 R.C05Proofs.
 Local Open Scope Z_scope.
 
 Theorem C16_heap_partial :
@@ -67,3 +71,26 @@ Theorem C16_flags_of_no_leak : forall (d : dkind) (p : list top) (fuel : nat) (t
   exec d fuel p = Done t -> (forall k i, ~ In (ELeak k i) t) -> C16_flags_ok t = true.
 Proof. exact C16_flags_of_noleak. Qed.
 Print Assumptions C16_flags_of_no_leak.
+
+(* tokens, Fwd closures, orphaned value tokens: released only if created before and not yet released *)
+Theorem C16_released_once_rest : forall (d : dkind) (p : list top) (fuel : nat) (t : list ev),
+  exec d fuel p = Done t -> C16_once_ok (fun k => negb (K16_lin k)) t = true.
+Proof. exact C16_once_rest_proved. Qed.
+Print Assumptions C16_released_once_rest.
+
+(* the property, given that the trace reports no leak *)
+Theorem C16_of_no_leak : forall (d : dkind) (p : list top) (fuel : nat) (t : list ev),
+  exec d fuel p = Done t -> (forall k i, ~ In (ELeak k i) t) -> C16_ok t = true.
+Proof.
+  intros d p fuel t E NL. rewrite (C16_split K16_lin).
+  rewrite (C16_flags_of_noleak d p fuel t E NL), (C16_lin_proved d p fuel t E), (C16_once_rest_proved d p fuel t E).
+  reflexivity.
+Qed.
+Check C16_of_no_leak.
+Print Assumptions C16_of_no_leak.
+
+(* the hypothesis is necessary: known finding F5 (a closure held by an actor that never leaves Prep is leaked) *)
+Example C16_leak_refuted :
+  exists t, exec DGlobal 2000 f5_prog = Done t /\ In (ELeak LK_CLO 1) t /\ C16_ok t = false /\
+            C16_once_ok K16_lin t = true /\ C16_once_ok (fun k => negb (K16_lin k)) t = true.
+Proof. eexists. split; [vm_compute; reflexivity|]. split; [vm_compute; tauto|]. repeat split; vm_compute; reflexivity. Qed.
